@@ -455,7 +455,7 @@ fn mutant_tag(m: &Mutant) -> &'static str {
 
 pub struct NdlNoPanic;
 
-const TOKENS: [&str; 28] = ["[", "]", "'", "=", "\t", "    ", "\n", "\r\n", " ", "\\", "\\'", "[Networks]", "[Network id='1']", "[IP ip='1.2.3.4']", "[IPtype x='1']", "[Machines]", "[Machine]", "[Protocols]", "[Applications]", "[Template]", "é", "世界", "\u{feff}", "name='", "id=", "''", "[]", "\0"];
+const TOKENS: [&str; 34] = ["\u{2003}", "\u{3000}", "\u{a0}", "\u{2028}", "\u{85}", "\u{1680}", "[", "]", "'", "=", "\t", "    ", "\n", "\r\n", " ", "\\", "\\'", "[Networks]", "[Network id='1']", "[IP ip='1.2.3.4']", "[IPtype x='1']", "[Machines]", "[Machine]", "[Protocols]", "[Applications]", "[Template]", "é", "世界", "\u{feff}", "name='", "id=", "''", "[]", "\0"];
 
 impl Check for NdlNoPanic {
     fn id(&self) -> &'static str {
@@ -468,11 +468,13 @@ impl Check for NdlNoPanic {
         500
     }
     fn run(&self, e: &mut Entropy, ctx: &mut Ctx) -> Result<(), Failure> {
+        // the mutation plan is decoded first so that it is not starved of entropy by the tree
+        let nmut = 1 + e.choose(6);
+        let plan: Vec<(usize, u16, usize, usize, bool)> = (0..nmut).map(|_| (e.weighted(&[5, 3, 2, 2, 2]), e.u16(), e.choose(TOKENS.len()), e.choose(12), e.bool())).collect();
         let mut escaped = false;
         let tree = gen_tree(e, &mut escaped);
         let r = gen_render(e);
         let mut text = render_lines(&lines_of(&tree), &r);
-        let nmut = 1 + e.choose(6);
         let boundary = |s: &str, mut i: usize| -> usize {
             i = i.min(s.len());
             while !s.is_char_boundary(i) {
@@ -480,43 +482,44 @@ impl Check for NdlNoPanic {
             }
             i
         };
-        for _ in 0..nmut {
-            match e.weighted(&[5, 3, 2, 2, 2]) {
+        let at = |text: &str, seed: u16| -> usize { (seed as usize * (text.len() + 1)) >> 16 };
+        for (kind, seed, tok, extra, flag) in plan {
+            match kind {
                 0 => {
-                    let i = boundary(&text, e.choose(text.len() + 1));
-                    let t = TOKENS[e.choose(TOKENS.len())];
-                    text.insert_str(i, t);
+                    // half of the insertions go to a structural position: right after a ']' or right before a '['
+                    let structural: Vec<usize> = text.char_indices().filter(|(_, c)| *c == ']' || *c == '[').map(|(i, c)| if c == ']' { i + 1 } else { i }).collect();
+                    let i = if !structural.is_empty() && flag { structural[(seed as usize * structural.len()) >> 16] } else { boundary(&text, at(&text, seed)) };
+                    text.insert_str(i, TOKENS[tok]);
                     ctx.class("token_inserted");
                 }
                 1 => {
-                    let i = boundary(&text, e.choose(text.len() + 1));
-                    let j = boundary(&text, (i + 1 + e.choose(12)).min(text.len()));
+                    let i = boundary(&text, at(&text, seed));
+                    let j = boundary(&text, (i + 1 + extra).min(text.len()));
                     if i < j {
                         text.replace_range(i..j, "");
                     }
                     ctx.class("range_deleted");
                 }
                 2 => {
-                    let i = boundary(&text, e.choose(text.len() + 1));
+                    let i = boundary(&text, at(&text, seed));
                     text.truncate(i);
                     ctx.class("truncated");
                 }
                 3 => {
-                    // re-indent one line
                     let lines: Vec<&str> = text.split('\n').collect();
-                    let li = e.choose(lines.len());
+                    let li = (seed as usize * lines.len()) >> 16;
                     let mut out: Vec<String> = lines.iter().map(|s| s.to_string()).collect();
                     let trimmed = out[li].trim_start_matches(['\t', ' ']).to_string();
-                    let nt = e.choose(6);
-                    out[li] = format!("{}{}", if e.bool() { "\t".repeat(nt) } else { " ".repeat(nt * 2) }, trimmed);
+                    let nt = extra % 6;
+                    out[li] = format!("{}{}", if flag { "\t".repeat(nt) } else { " ".repeat(nt * 2) }, trimmed);
                     text = out.join("\n");
                     ctx.class("reindented");
                 }
                 _ => {
-                    let i = boundary(&text, e.choose(text.len() + 1));
+                    let i = boundary(&text, at(&text, seed));
                     let j = boundary(&text, i + 1);
                     if i < j && j <= text.len() {
-                        let c = *e.pick(&["[", "]", "'", "\t", "\n", "x", " ", "\\"]);
+                        let c = ["[", "]", "'", "\t", "\n", "x", " ", "\\"][extra % 8];
                         text.replace_range(i..j, c);
                     }
                     ctx.class("char_replaced");
